@@ -816,8 +816,31 @@ class Harness:
             ckw["abort_if"] = self.abort_if
         return ckw
 
+    def _reconfigure(self, st):
+        """The caller reassigns public attributes of the policy object between two calls (tests do `policy.max_attempts = 2`)."""
+        import datetime
+
+        tgt = self.obj
+        if tgt is None:
+            return False  # @retry: no object to reconfigure
+        if self.kind == "policy":
+            tgt = getattr(self.obj, "retry", None)
+            if tgt is None:
+                return False
+        if "deadline_s" in st:
+            tgt.deadline = datetime.timedelta(seconds=st["deadline_s"])
+        if "max_attempts" in st:
+            tgt.max_attempts = st["max_attempts"]
+        if "max_unknown" in st:
+            tgt.max_unknown_attempts = st["max_unknown"]
+        if "per_class" in st:
+            tgt.per_class_max_attempts = {EC[k_]: v for k_, v in st["per_class"].items()}
+        return True
+
     def _begin(self, k):
         envd = self.sc["calls"][k]
+        if envd.get("set"):
+            self._reconfigure(envd["set"])
         rec = Rec(envd, self.entry, k)
         self.world.t += envd.get("gap", 0.0)
         rec.t_start = self.world.now()
